@@ -104,7 +104,7 @@ def draw_structure(rng):
             return {"value": rng.choice(["v", 42]), "p": rng.choice([0.0, 0.3, 0.7, 1.0])}
         if r < 0.86:
             return {"sparse": True, "p": rng.choice([0.0, 0.2, 0.8, 1.0])}
-        vals = rng.sample(["a", "b", "c", "d", 1, 2], rng.randint(1, 4))
+        vals = rng.sample(["a", "b", "c", "d", 1, 2, 0, False, ""], rng.randint(1, 4))
         counts = None
         if rng.random() < 0.4:
             counts = [rng.choice([0, 1, 3]) for _ in vals]
@@ -118,7 +118,7 @@ def draw_structure(rng):
     def count_spec():
         r = rng.random()
         if r < 0.5:
-            return rng.choice([0, 1, 1, 2, 3])
+            return rng.choice([0, 1, 2, 2, 3, 4])
         a = rng.randint(0, 2)
         return {"range": [a, a + rng.randint(1, 3)], "p": rng.choice([1.0, 1.0, 0.5, 0.0])}
 
@@ -144,7 +144,7 @@ def draw_structure(rng):
     desc["relations"]["__root__"] = rel(rng.sample(types, rng.randint(1, min(2, n_types))))
     for i, t in enumerate(types):
         later = types[i + 1:]
-        if later and rng.random() < 0.7:
+        if later and rng.random() < 0.85:
             desc["relations"][t] = rel(rng.sample(later, rng.randint(1, min(2, len(later)))))
     return desc
 
